@@ -435,6 +435,8 @@ class Model:
                 e = k.assigns[name][-1]
                 if isinstance(e, ast.Name) and e.id in k.methods:
                     return k.methods[e.id]
+                if isinstance(e, ast.Name) and e.id in k.module.functions:
+                    return k.module.functions[e.id]      # a module-level function used as a method:  getElementsByTagName = _getElementsByTagName
                 return None
         return None
 
